@@ -118,7 +118,14 @@ def run_xspec(spec):
                 res.violation("absent-name-not-none", f"{text!r}: {absent}")
         if str(s) != text:
             res.violation("str-not-input", f"{text!r} -> {str(s)!r}")
-        s2 = XSpec(text)
+        try:
+            s2 = XSpec(text)  # parsing the same text again (earlier specs must not leave anything behind)
+            s3 = XSpec(text)
+        except ValueError as e:
+            res.violation("valid-spec-rejected-when-parsed-again", f"{text!r}: {e}")
+            continue
+        if s3.env != want_env or s2.env is s3.env:
+            res.violation("env-mapping-wrong-on-later-parse", f"{text!r}: {s3.env!r} != {want_env!r} (shared={s2.env is s3.env})")
         other = XSpec(text + "//zzextra") if "zzextra" not in used else XSpec("q")
         if not (s == s2) or (s != s2) or hash(s) != hash(s2) or hash(s) != hash(text):
             res.violation("eq-hash-not-by-text", text)
